@@ -7,13 +7,10 @@ namespace C15
 open B
 
 /-- the only answers of the oracle that are not a verdict: the history is outside the property's domain -/
-def OutsideDomain (e : String) : Prop :=
-  e = "outside-domain: second session load" ∨ e = "outside-domain: Save after Destroy"
+def OutsideDomain (e : String) : Prop := e = "outside-domain: Save after Destroy"
 
-/-- the two situations in which the oracle declares a history outside the domain -/
-def Trigger (viaMw : Bool) (r : SReq) (a : Act) : Prop :=
-  (a = .storeGet ∧ viaMw = false ∧ r.loaded = true) ∨
-  (a = .save ∧ ∃ v, r.view = some v ∧ v.destroyed = true)
+/-- the situation in which the oracle declares a history outside the domain -/
+def Trigger (r : SReq) (a : Act) : Prop := a = .save ∧ ∃ v, r.view = some v ∧ v.destroyed = true
 
 /-- an operation on the current session: new context, new Session object, and their abstract
     counterparts; `d'` is the middleware's `destroyed` flag afterwards -/
@@ -21,7 +18,7 @@ theorem Rel.update' {cfg : Cfg} {gen : Nat → Bytes} {G : List Bytes} {q : Req}
     (hrel : Rel cfg gen G q h r) {s : Sess} {v : View} (hs : h.sess = some s) (hv : r.view = some v)
     {c' : RCtx} {s' : Sess} {r' : SReq} {v' : View} (d' : Bool)
     {G' : List Bytes} (sim : Sim cfg gen G' c' s' r r' v') (hmono : h.c.st.nid ≤ c'.st.nid)
-    (hctx : s'.hasCtx = s.hasCtx) (hsame : s.hasCtx = false → SameReq h.c c')
+    (hctx : s'.hasCtx = s.hasCtx)
     (hd' : d' = h.destroyed ∨ d' = true)
     (hdes : h.cur = .mw → d' = false → v'.destroyed = true → v.destroyed = true) :
     Rel cfg gen G' q { (({ h with c := c' } : HSt).putSess s') with destroyed := d' }
@@ -29,17 +26,18 @@ theorem Rel.update' {cfg : Cfg} {gen : Nat → Bytes} {G : List Bytes} {q : Req}
   have hfr := sim.frame
   have hlive := hrel.mwLive
   obtain ⟨c, mw, d, cur⟩ := h
-  obtain ⟨rs, rg, rmw, rmd, rcur, rl⟩ := r
-  obtain ⟨rs', rg', rmw', rmd', rcur', rl'⟩ := r'
+  have hreq := sim.req
+  obtain ⟨rs, rg, rp, rgi, rmw, rmd, rcur⟩ := r
+  obtain ⟨rs', rg', rp', rgi', rmw', rmd', rcur'⟩ := r'
   simp only [SReq.mk.injEq] at hfr
-  obtain ⟨_, _, hmw', hmd', hcur', hl'⟩ := hfr
-  subst hmw' hmd' hcur' hl'
+  obtain ⟨_, _, _, _, hmw', hmd', hcur'⟩ := hfr
+  subst hmw' hmd' hcur'
   have hm := hrel.mw
   have hc := hrel.cur
   have hvia := hrel.viaMw
   simp only [HSt.sess] at hs
   simp only [SReq.view] at hv
-  simp only at hm hc hvia hmono hsame hd' hdes hlive
+  simp only at hm hc hvia hmono hd' hdes hlive
   have hdfalse : d' = false → d = false := by
     intro h0; rcases hd' with h1 | h1
     · rw [← h1]; exact h0
@@ -65,7 +63,7 @@ theorem Rel.update' {cfg : Cfg} {gen : Nat → Bytes} {G : List Bytes} {q : Req}
         have := hdes rfl h0 hvd
         have h2 := hlive (hdfalse h0) v rfl
         rw [this] at h2; cases h2
-    · intro hq; rw [hq] at hvia; simp at hvia
+    · exact hreq
   | other s0 =>
     cases rcur' <;> simp only [CurRel] at hc <;> try contradiction
     simp only [Option.some.injEq] at hs hv
@@ -73,32 +71,23 @@ theorem Rel.update' {cfg : Cfg} {gen : Nat → Bytes} {G : List Bytes} {q : Req}
     simp only [HSt.putSess, SReq.putView]
     refine ⟨sim.st, sim.gens, sim.out, hm.mono hmono, sim.view, rfl, hvia, hrel.mwCtx, ?_, ?_⟩
     · intro h0; exact hlive (hdfalse h0)
-    intro hq hl
-    have hu := hrel.pre hq hl
-    have hctx0 : s0.hasCtx = false := hu.cur s0 rfl
-    obtain ⟨h1, h2, h3, h4⟩ := hsame hctx0
-    refine ⟨by simp only; rw [h1]; exact hu.ck, by simp only; rw [h2]; exact hu.hd,
-      by simp only; rw [h3]; exact hu.qr, by simp only; rw [h4]; exact hu.locals, ?_⟩
-    intro s1 hs1
-    simp only [Cur.other.injEq] at hs1
-    subst hs1
-    rw [hctx]; exact hctx0
+    · exact hreq
 
 theorem Rel.update {cfg : Cfg} {gen : Nat → Bytes} {G : List Bytes} {q : Req} {h : HSt} {r : SReq}
     (hrel : Rel cfg gen G q h r) {s : Sess} {v : View} (hs : h.sess = some s) (hv : r.view = some v)
     {c' : RCtx} {s' : Sess} {r' : SReq} {v' : View}
     {G' : List Bytes} (sim : Sim cfg gen G' c' s' r r' v') (hmono : h.c.st.nid ≤ c'.st.nid)
-    (hctx : s'.hasCtx = s.hasCtx) (hsame : s.hasCtx = false → SameReq h.c c')
+    (hctx : s'.hasCtx = s.hasCtx)
     (hdes : h.cur = .mw → v'.destroyed = true → v.destroyed = true) :
     Rel cfg gen G' q (({ h with c := c' } : HSt).putSess s') (r'.putView v') := by
-  have h1 := hrel.update' hs hv h.destroyed sim hmono hctx hsame (Or.inl rfl) (fun a _ b => hdes a b)
+  have h1 := hrel.update' hs hv h.destroyed sim hmono hctx (Or.inl rfl) (fun a _ b => hdes a b)
   have hmd : r'.mwDestroyed = h.destroyed := by rw [sim.fields.2.1]; exact hrel.destroyed
   have e1 : ({ (({ h with c := c' } : HSt).putSess s') with destroyed := h.destroyed } : HSt) =
       ({ h with c := c' } : HSt).putSess s' := by
     cases hc : h.cur <;> simp [HSt.putSess]
   have e2 : ({ (r'.putView v') with mwDestroyed := h.destroyed } : SReq) = r'.putView v' := by
     clear h1 e1 sim
-    obtain ⟨rs', rg', rmw', rmd', rcur', rl'⟩ := r'
+    obtain ⟨rs', rg', rp', rgi', rmw', rmd', rcur'⟩ := r'
     simp only at hmd
     subst hmd
     cases rcur' <;> rfl
@@ -108,16 +97,7 @@ theorem Rel.update {cfg : Cfg} {gen : Nat → Bytes} {G : List Bytes} {q : Req} 
 /-- what `act_sim` promises for one action -/
 def ActOK (cfg : Cfg) (gen : Nat → Bytes) (G : List Bytes) (q : Req) (h : HSt) (r : SReq) (a : Act) : Prop :=
   (∃ r', specAct cfg q.viaMw q r a (act cfg gen h a).2 = .ok r' ∧ Rel cfg gen G q (act cfg gen h a).1 r') ∨
-  (∃ e, specAct cfg q.viaMw q r a (act cfg gen h a).2 = .error e ∧ OutsideDomain e ∧ Trigger q.viaMw r a)
-
-theorem presented_eq (cfg : Cfg) (q : Req) (c : RCtx) (h1 : c.ck = q.ck) (h2 : c.hd = q.hd) (h3 : c.qr = q.qr) :
-    getSessionID cfg c = presentedId cfg q := by
-  unfold getSessionID presentedId
-  rw [h1, h2, h3]
-  by_cases hck : q.ck = []
-  · simp only [hck, ne_eq, not_true_eq_false, if_false]
-    cases cfg.source <;> simp
-  · simp [hck]
+  (∃ e, specAct cfg q.viaMw q r a (act cfg gen h a).2 = .error e ∧ OutsideDomain e ∧ Trigger r a)
 
 theorem Rel.cur_mw_iff {cfg : Cfg} {gen : Nat → Bytes} {G : List Bytes} {q : Req} {h : HSt} {r : SReq}
     (hrel : Rel cfg gen G q h r) : (h.cur = .mw) ↔ (r.cur = .mw) := by
@@ -174,8 +154,8 @@ theorem Rel.update_view (hrel : Rel cfg gen G q h r) {s s' : Sess} {v v' : View}
     (hs : h.sess = some s) (hv : r.view = some v) (hvr : ViewRel cfg gen h.c.st.nid s' v')
     (hctx : s'.hasCtx = s.hasCtx) (hdes : v'.destroyed = true → v.destroyed = true) :
     Rel cfg gen G q (h.putSess s') (r.putView v') :=
-  hrel.update (c' := h.c) (r' := r) hs hv ⟨hrel.st, hrel.gens, hvr, hrel.out, rfl⟩ (Nat.le_refl _) hctx
-    (fun _ => SameReq.rfl' _) (fun _ => hdes)
+  hrel.update (c' := h.c) (r' := r) hs hv ⟨hrel.st, hrel.gens, hvr, hrel.out, hrel.req, rfl⟩ (Nat.le_refl _) hctx
+    (fun _ => hdes)
 
 theorem act_sim_set (hrel : Rel cfg gen G q h r) (k val : Bytes) : ActOK cfg gen G q h r (.set k val) := by
   left
@@ -191,7 +171,7 @@ theorem act_sim_set (hrel : Rel cfg gen G q h r) (k val : Bytes) : ActOK cfg gen
     · simp [specAct, hv]
     · have := hrel.update_view (s' := { s with data := { s.data with kv := put s.data.kv k val } })
         (v' := { v with data := put v.data k val }) hs hv
-        ⟨hvr.id, by simp [hvr.data], nodup_put hvr.nodup k val, hvr.fresh, hvr.abs, hvr.abs0, hvr.idle, hvr.issued⟩ rfl (fun a => a)
+        ⟨hvr.id, by simp [hvr.data], nodup_put hvr.nodup k val, hvr.fresh, hvr.abs, hvr.abs0, hvr.idle, hvr.issued, hvr.ctx⟩ rfl (fun a => a)
       simpa [act, hs] using this
 
 theorem act_sim_del (hrel : Rel cfg gen G q h r) (k : Bytes) : ActOK cfg gen G q h r (.del k) := by
@@ -208,7 +188,7 @@ theorem act_sim_del (hrel : Rel cfg gen G q h r) (k : Bytes) : ActOK cfg gen G q
     · simp [specAct, hv]
     · have := hrel.update_view (s' := { s with data := { s.data with kv := erase s.data.kv k } })
         (v' := { v with data := erase v.data k }) hs hv
-        ⟨hvr.id, by simp [hvr.data], nodup_erase hvr.nodup k, hvr.fresh, hvr.abs, hvr.abs0, hvr.idle, hvr.issued⟩ rfl (fun a => a)
+        ⟨hvr.id, by simp [hvr.data], nodup_erase hvr.nodup k, hvr.fresh, hvr.abs, hvr.abs0, hvr.idle, hvr.issued, hvr.ctx⟩ rfl (fun a => a)
       simpa [act, hs] using this
 
 theorem act_sim_idle (hrel : Rel cfg gen G q h r) (secs : Int) : ActOK cfg gen G q h r (.idle secs) := by
@@ -225,7 +205,7 @@ theorem act_sim_idle (hrel : Rel cfg gen G q h r) (secs : Int) : ActOK cfg gen G
     · simp [specAct, hv]
     · have := hrel.update_view (s' := { s with idleT := secs })
         (v' := { v with idle := if secs > 0 then some secs.toNat else none }) hs hv
-        ⟨hvr.id, hvr.data, hvr.nodup, hvr.fresh, hvr.abs, hvr.abs0, rfl, hvr.issued⟩ rfl (fun a => a)
+        ⟨hvr.id, hvr.data, hvr.nodup, hvr.fresh, hvr.abs, hvr.abs0, rfl, hvr.issued, hvr.ctx⟩ rfl (fun a => a)
       simpa [act, hs] using this
 
 @[simp] theorem putSess_cur (h : HSt) (s : Sess) : ((h.putSess s).cur = .mw) ↔ (h.cur = .mw) := by
@@ -233,6 +213,11 @@ theorem act_sim_idle (hrel : Rel cfg gen G q h r) (secs : Int) : ActOK cfg gen G
 
 @[simp] theorem putView_cur (r : SReq) (v : View) : ((r.putView v).cur = .mw) ↔ (r.cur = .mw) := by
   unfold SReq.putView; split <;> simp_all
+
+/-- the abstract request state after `Destroy` of the view `v` -/
+abbrev dropR (cfg : Cfg) (r : SReq) (v : View) : SReq :=
+  { r with s := { r.s with sessions := erase r.s.sessions v.id },
+           pres := if v.ctx then withdraw cfg r.pres else r.pres }
 
 theorem act_sim_destroy (hw : WF cfg gen) (hrel : Rel cfg gen G q h r) : ActOK cfg gen G q h r .destroy := by
   left
@@ -247,32 +232,33 @@ theorem act_sim_destroy (hw : WF cfg gen) (hrel : Rel cfg gen G q h r) : ActOK c
     have hsim := destroy_sim hw hrel.st hvr
     have hst' : (sessDestroy cfg h.c s).1.st.nid = h.c.st.nid := by rw [sessDestroy_st]; simp
     have hsimD : Sim cfg gen G (sessDestroy cfg h.c s).1 (sessDestroy cfg h.c s).2 r
-        { r with s := { r.s with sessions := erase r.s.sessions v.id } } { v with data := [], destroyed := true } :=
-      ⟨hsim.1, hrel.gens, by rw [hst']; exact hsim.2, sessDestroy_out hrel.out s, rfl⟩
+        (dropR cfg r v) { v with data := [], destroyed := true } :=
+      ⟨hsim.1, hrel.gens, by rw [hst']; exact hsim.2, sessDestroy_out hrel.out s,
+       sessDestroy_ctx hrel.req (by simp [dropR, hvr.ctx]) rfl, rfl⟩
     by_cases hcur : h.cur = .mw
     · have hrc := hrel.cur_mw_iff.mp hcur
       have hup := hrel.update' hs hv true hsimD (by rw [hst']; exact Nat.le_refl _) rfl
-        (fun hc => sessDestroy_same cfg h.c hc) (Or.inr rfl) (by intro _ hf; cases hf)
-      refine ⟨{ (({ r with s := { r.s with sessions := erase r.s.sessions v.id } } : SReq).putView
-          { v with data := [], destroyed := true }) with mwDestroyed := true }, ?_, ?_⟩
-      · simp [specAct, hv, hrc]
+        (Or.inr rfl) (by intro _ hf; cases hf)
+      refine ⟨{ ((dropR cfg r v).putView { v with data := [], destroyed := true }) with mwDestroyed := true }, ?_, ?_⟩
+      · simp only [specAct, hv]
+        rw [if_pos ((putView_cur (dropR cfg r v) _).mpr hrc)]
       · simpa [act, hs, hcur] using hup
     · have hrc : ¬ r.cur = .mw := fun e => hcur (hrel.cur_mw_iff.mpr e)
       have hup := hrel.update hs hv hsimD (by rw [hst']; exact Nat.le_refl _) rfl
-        (fun hc => sessDestroy_same cfg h.c hc) (fun hc => absurd hc hcur)
-      refine ⟨(({ r with s := { r.s with sessions := erase r.s.sessions v.id } } : SReq).putView
-          { v with data := [], destroyed := true }), ?_, ?_⟩
-      · simp [specAct, hv, hrc]
+        (fun hc => absurd hc hcur)
+      refine ⟨(dropR cfg r v).putView { v with data := [], destroyed := true }, ?_, ?_⟩
+      · simp only [specAct, hv]
+        rw [if_neg (fun e => hrc ((putView_cur (dropR cfg r v) _).mp e))]
       · simpa [act, hs, hcur] using hup
 
 /-- the abstract request state after the session `id` was dropped and the generator called once -/
-def regenR (gen : Nat → Bytes) (G' : List Bytes) (n : Nat) (r : SReq) (id : Bytes) : SReq :=
-  { r with gens := G',
+def regenR (gen : Nat → Bytes) (G' : List Bytes) (n : Nat) (r : SReq) (id : Bytes) (pres : Pres) : SReq :=
+  { r with gens := G', pres := pres,
            s := { r.s with sessions := erase r.s.sessions id, issued := (List.range (n + 1)).map gen } }
 
 /-- the abstract fresh session -/
-def freshV (cfg : Cfg) (id : Bytes) (now : Nat) : View :=
-  { id := id, data := [], fresh := true, abs := if cfg.abs > 0 then some (now + cfg.abs) else none }
+def freshV (cfg : Cfg) (id : Bytes) (now : Nat) (ctx : Bool) : View :=
+  { id := id, data := [], fresh := true, abs := if cfg.abs > 0 then some (now + cfg.abs) else none, ctx := ctx }
 
 theorem act_sim_regenerate (hw : WF cfg gen) (hrel : Rel cfg gen G q h r) {G' : List Bytes}
     (hG : G = gensBetween gen h.c.st.nid (act cfg gen h .regenerate).1.c.st.nid ++ G') :
@@ -297,12 +283,13 @@ theorem act_sim_regenerate (hw : WF cfg gen) (hrel : Rel cfg gen G q h r) {G' : 
     have hfv := freshView_ok (r := { r with s := { r.s with sessions := erase r.s.sessions v.id } }) hw
       hrel.st.issued hg
     have hup := hrel.update (G' := G') (c' := (sessRegenerate gen h.c s).1) (s' := (sessRegenerate gen h.c s).2)
-      (r' := regenR gen G' h.c.st.nid r v.id)
+      (r' := regenR gen G' h.c.st.nid r v.id r.pres)
       (v' := { v with id := gen h.c.st.nid, fresh := true }) hs hv
-      ⟨hsim.1, rfl, by rw [hnid]; exact hsim.2, sessRegenerate_out hrel.out s, rfl⟩
+      ⟨hsim.1, rfl, by rw [hnid]; exact hsim.2, sessRegenerate_out hrel.out s,
+       sessRegenerate_ctx s hrel.req rfl rfl, rfl⟩
       (by rw [hnid]; omega) (by rw [sessRegenerate_snd])
-      (fun _ => sessRegenerate_same gen h.c s) (fun _ a => a)
-    refine ⟨(regenR gen G' h.c.st.nid r v.id).putView { v with id := gen h.c.st.nid, fresh := true }, ?_, ?_⟩
+      (fun _ a => a)
+    refine ⟨(regenR gen G' h.c.st.nid r v.id r.pres).putView { v with id := gen h.c.st.nid, fresh := true }, ?_, ?_⟩
     · simp only [specAct, hv, bind, Except.bind, hfv]
       rfl
     · simpa [act, hs] using hup
@@ -327,18 +314,24 @@ theorem act_sim_reset (hw : WF cfg gen) (hrel : Rel cfg gen G q h r) {G' : List 
       simp only [act, hs, putSess_c] at hG
       rw [hnid, gensBetween_succ] at hG
       rw [hrel.gens, hG]; rfl
-    have hfv := freshView_ok (r := { r with s := { r.s with sessions := erase r.s.sessions v.id } }) hw
-      hrel.st.issued hg
+    have hfv := freshView_ok (r := dropR cfg r v) hw hrel.st.issued hg
+    simp only [dropR] at hfv
     have hup := hrel.update (G' := G') (c' := (sessReset cfg gen h.c s).1) (s' := (sessReset cfg gen h.c s).2)
-      (r' := regenR gen G' h.c.st.nid r v.id)
-      (v' := freshV cfg (gen h.c.st.nid) r.s.now) hs hv
-      ⟨hsim.1, rfl, by rw [hnid]; exact hsim.2, sessReset_out hrel.out s, rfl⟩
+      (r' := regenR gen G' h.c.st.nid r v.id (if v.ctx then withdraw cfg r.pres else r.pres))
+      (v' := freshV cfg (gen h.c.st.nid) r.s.now v.ctx) hs hv
+      ⟨hsim.1, rfl, by rw [hnid]; exact hsim.2, sessReset_out hrel.out s,
+       sessReset_ctx hrel.req (by simp [regenR, hvr.ctx]) rfl, rfl⟩
       (by rw [hnid]; omega) (by rw [sessReset_snd])
-      (fun hc => sessReset_same cfg gen h.c hc) (by intro _ hf; simp [freshV] at hf)
-    refine ⟨(regenR gen G' h.c.st.nid r v.id).putView (freshV cfg (gen h.c.st.nid) r.s.now), ?_, ?_⟩
+      (by intro _ hf; simp [freshV] at hf)
+    refine ⟨(regenR gen G' h.c.st.nid r v.id (if v.ctx then withdraw cfg r.pres else r.pres)).putView
+      (freshV cfg (gen h.c.st.nid) r.s.now v.ctx), ?_, ?_⟩
     · simp only [specAct, hv, bind, Except.bind, hfv]
       rfl
     · simpa [act, hs] using hup
+
+/-- the abstract request state after `Save` of the view `v` -/
+abbrev savedR (cfg : Cfg) (r : SReq) (v : View) : SReq :=
+  { (saveView cfg r v).1 with pres := if v.ctx then represent cfg r.pres v.id else r.pres }
 
 theorem act_sim_save (hw : WF cfg gen) (hrel : Rel cfg gen G q h r) : ActOK cfg gen G q h r .save := by
   cases hs : h.sess with
@@ -360,19 +353,20 @@ theorem act_sim_save (hw : WF cfg gen) (hrel : Rel cfg gen G q h r) : ActOK cfg 
       cases hd : v.destroyed with
       | true =>
         right
-        refine ⟨_, ?_, Or.inr rfl, Or.inr ⟨rfl, v, hv, hd⟩⟩
+        refine ⟨_, ?_, rfl, ⟨rfl, v, hv, hd⟩⟩
         simp [specAct, hv, hrc, hd]
       | false =>
         left
         have hsim := save_sim hw (r := r) hrel.st hvr hd
         have hnid : (sessSave cfg h.c s).1.st.nid = h.c.st.nid := by rw [sessSave_st]; simp
         have hup := hrel.update (c' := (sessSave cfg h.c s).1) (s' := (sessSave cfg h.c s).2)
-          (r' := (saveView cfg r v).1) (v' := (saveView cfg r v).2) hs hv
-          ⟨hsim.1, hrel.gens, by rw [hnid]; exact hsim.2, sessSave_out hrel.out hvr.issued, rfl⟩
+          (r' := savedR cfg r v) (v' := (saveView cfg r v).2) hs hv
+          ⟨hsim.1, hrel.gens, by rw [hnid]; exact hsim.2, sessSave_out hrel.out hvr.issued,
+           sessSave_ctx hrel.req (by simp [savedR, saveView_eq, hvr.ctx, hvr.id]) rfl, rfl⟩
           (by rw [hnid]; exact Nat.le_refl _) (by rw [sessSave_snd])
-          (fun hc => sessSave_same cfg h.c hc) (fun _ a => a)
-        refine ⟨(saveView cfg r v).1.putView (saveView cfg r v).2, ?_, ?_⟩
-        · simp [specAct, hv, hrc, hd]
+          (fun _ a => a)
+        refine ⟨(savedR cfg r v).putView (saveView cfg r v).2, ?_, ?_⟩
+        · simp [specAct, hv, hrc, hd, savedR, saveView_eq]
         · simpa [act, hs, hcur] using hup
 
 theorem act_sim_release (hrel : Rel cfg gen G q h r) : ActOK cfg gen G q h r .release := by
@@ -397,7 +391,7 @@ theorem act_sim_release (hrel : Rel cfg gen G q h r) : ActOK cfg gen G q h r .re
           strel_congr hrel.st rfl rfl rfl (release_inv hrel.st.inv s).2
         have : Rel cfg gen G q { h with c := release h.c s, cur := .none } { r with cur := .none } :=
           ⟨hst, hrel.gens, ⟨hrel.out.ck, hrel.out.hd⟩, hrel.mw, trivial, hrel.destroyed, hrel.viaMw,
-           hrel.mwCtx, hrel.mwLive, fun a b => let u := hrel.pre a b; ⟨u.ck, u.hd, u.qr, u.locals, by intro s hs; simp at hs⟩⟩
+           hrel.mwCtx, hrel.mwLive, hrel.req⟩
         simpa [act, hs, hcur] using this
 
 /-- a Store-level operation: only the storage / the table change -/
@@ -409,9 +403,7 @@ theorem Rel.update_st (hrel : Rel cfg gen G q h r) {st' : St} {s' : SpecSt} (hst
   · intro v hv; simp only; rw [hnid]; exact hrel.out.hd v hv
   · simp only; rw [hnid]; exact hrel.mw
   · simp only; rw [hnid]; exact hrel.cur
-  · intro a b
-    have u := hrel.pre a b
-    exact ⟨u.ck, u.hd, u.qr, u.locals, u.cur⟩
+  · exact hrel.req
 
 theorem act_sim_storeDelete (hrel : Rel cfg gen G q h r) (id : Bytes) :
     ActOK cfg gen G q h r (.storeDelete id) := by
@@ -435,47 +427,39 @@ theorem act_sim_storeReset (hrel : Rel cfg gen G q h r) : ActOK cfg gen G q h r 
 theorem act_sim_storeGet (hw : WF cfg gen) (hrel : Rel cfg gen G q h r) {G' : List Bytes}
     (hG : G = gensBetween gen h.c.st.nid (act cfg gen h .storeGet).1.c.st.nid ++ G') :
     ActOK cfg gen G' q h r .storeGet := by
+  left
   cases hvia : q.viaMw with
   | true =>
     have hmw : h.mw.isSome = true := by rw [← hrel.viaMw]; exact hvia
     have hGG : G = G' := by simpa [act, hmw, gensBetween_self] using hG
     subst hGG
-    left
     refine ⟨r, ?_, ?_⟩
     · simp [specAct, act, hmw, hvia]
     · simpa [act, hmw] using hrel
   | false =>
+    -- the first or a later lookup of this request
     have hmw : h.mw.isSome = false := by rw [← hrel.viaMw]; exact hvia
     have hmwn : h.mw = none := by cases hm : h.mw <;> simp_all
-    cases hl : r.loaded with
-    | true =>
-      right
-      exact ⟨_, by simp [specAct, hl, hvia], Or.inl rfl, Or.inl ⟨rfl, hvia, hl⟩⟩
-    | false =>
-      left
-      have hu := hrel.pre hvia hl
-      simp only [act, hmw, Bool.false_eq_true, if_false] at hG
-      obtain ⟨r', v, hlv, sim, hctx, hmono, _⟩ := load_sim hw hrel.st hu.locals hrel.out (hrel.gens.trans hG)
-      rw [presented_eq cfg q h.c hu.ck hu.hd hu.qr] at hlv
-      refine ⟨{ r' with cur := .other v, loaded := true }, ?_, ?_⟩
-      · simp [specAct, hl, hlv, hvia, bind, Except.bind, act, hmw, pure, Except.pure]
-      · have hrm : r'.mw = none := by
-          have hm := hrel.mw
-          rw [hmwn] at hm
-          rw [sim.fields.1]
-          cases hrm : r.mw with
-          | none => rfl
-          | some v0 => rw [hrm] at hm; simp [OptViewRel] at hm
-        have : Rel cfg gen G' q { h with c := (getSession cfg gen h.c).1, cur := .other (getSession cfg gen h.c).2 }
-            { r' with cur := .other v, loaded := true } := by
-          refine ⟨sim.st, sim.gens, sim.out, ?_, sim.view, ?_, ?_, ?_, ?_, ?_⟩
-          · simp only [hmwn, hrm, OptViewRel]
-          · simp only; rw [sim.fields.2.1]; exact hrel.destroyed
-          · exact hrel.viaMw
-          · intro s hs; simp only [hmwn] at hs; cases hs
-          · intro _ v1 hv1; simp only [hrm] at hv1; cases hv1
-          · intro _ hf; simp at hf
-        simpa [act, hmw] using this
+    simp only [act, hmw, Bool.false_eq_true, if_false] at hG
+    obtain ⟨r', v, hlv, sim, hmono, _, _⟩ := load_sim hw hrel.st hrel.req hrel.out (hrel.gens.trans hG)
+    refine ⟨{ r' with cur := .other v }, ?_, ?_⟩
+    · simp [specAct, hlv, hvia, bind, Except.bind, act, hmw, pure, Except.pure]
+    · have hrm : r'.mw = none := by
+        have hm := hrel.mw
+        rw [hmwn] at hm
+        rw [sim.fields.1]
+        cases hrm : r.mw with
+        | none => rfl
+        | some v0 => rw [hrm] at hm; simp [OptViewRel] at hm
+      have : Rel cfg gen G' q { h with c := (getSession cfg gen h.c).1, cur := .other (getSession cfg gen h.c).2 }
+          { r' with cur := .other v } := by
+        refine ⟨sim.st, sim.gens, sim.out, ?_, sim.view, ?_, ?_, ?_, ?_, sim.req⟩
+        · simp only [hmwn, hrm, OptViewRel]
+        · simp only; rw [sim.fields.2.1]; exact hrel.destroyed
+        · exact hrel.viaMw
+        · intro s hs; simp only [hmwn] at hs; cases hs
+        · intro _ v1 hv1; simp only [hrm] at hv1; cases hv1
+      simpa [act, hmw] using this
 
 /-- the context moved on without generating an id and without touching the request -/
 theorem Rel.update_ctx (hrel : Rel cfg gen G q h r) {c' : RCtx} {s' : SpecSt} (hst : StRel cfg gen c'.st s')
@@ -484,22 +468,14 @@ theorem Rel.update_ctx (hrel : Rel cfg gen G q h r) {c' : RCtx} {s' : SpecSt} (h
   refine ⟨hst, hrel.gens, hout, ?_, ?_, hrel.destroyed, hrel.viaMw, hrel.mwCtx, hrel.mwLive, ?_⟩
   · simp only; rw [hnid]; exact hrel.mw
   · simp only; rw [hnid]; exact hrel.cur
-  · intro a b
-    have u := hrel.pre a b
-    obtain ⟨h1, h2, h3, h4⟩ := hsame
-    exact ⟨by simp only; rw [h1]; exact u.ck, by simp only; rw [h2]; exact u.hd, by simp only; rw [h3]; exact u.qr,
-      by simp only; rw [h4]; exact u.locals, u.cur⟩
+  · obtain ⟨h1, h2, h3, h4⟩ := hsame
+    exact hrel.req.of_eq h1 h2 h3 h4 rfl rfl
 
 /-- the handler's variable now refers to a context-less session (`GetByID`) -/
 theorem Rel.set_cur (hrel : Rel cfg gen G q h r) {s : Sess} {v : View} (hv : ViewRel cfg gen h.c.st.nid s v)
     (hctx : s.hasCtx = false) : Rel cfg gen G q { h with cur := .other s } { r with cur := .other v } := by
-  refine ⟨hrel.st, hrel.gens, hrel.out, hrel.mw, hv, hrel.destroyed, hrel.viaMw, hrel.mwCtx, hrel.mwLive, ?_⟩
-  intro a b
-  have u := hrel.pre a b
-  refine ⟨u.ck, u.hd, u.qr, u.locals, ?_⟩
-  intro s1 hs1
-  simp only [Cur.other.injEq] at hs1
-  subst hs1; exact hctx
+  have _ := hctx
+  exact ⟨hrel.st, hrel.gens, hrel.out, hrel.mw, hv, hrel.destroyed, hrel.viaMw, hrel.mwCtx, hrel.mwLive, hrel.req⟩
 
 theorem getByID_empty (cfg : Cfg) (c : RCtx) : getByID cfg c [] = (c, .error .empty) := by
   simp [getByID]
@@ -564,20 +540,20 @@ theorem act_sim_byID (hw : WF cfg gen) (hrel : Rel cfg gen G q h r) (id : Bytes)
     have hiss : Issued gen (acquire h.c).1.st.nid id := by
       rw [hsp.1]; exact hrel.st.inv.1 _ (lookup_some_mem he)
     have hv0 : ViewRel cfg gen (acquire h.c).1.st.nid { id := id, data := blob, fresh := false, hasCtx := false }
-        { id := id, data := se.data, fresh := false, abs := se.absDeadline } := by
-      refine ⟨rfl, by rw [hr.data, hblob], hnd, rfl, by intro _; rw [hr.abs, hblob], ?_, by simp, hiss⟩
+        (View.mk id se.data false se.absDeadline none false false) := by
+      refine ⟨rfl, by rw [hr.data, hblob], hnd, rfl, by intro _; rw [hr.abs, hblob], ?_, by simp, hiss, rfl⟩
       intro h0; rw [← hblob]; exact hr.abs0 h0
     have hidle : decide (h.c.st.now < se.idleDeadline) = true := by
       rw [← hr.live]; exact hlive
     have hlive_eq : se.live r.s.now = !(absExpired h.c.st.now blob) := by
       rw [absExpired_iff]
-      simp only [SEntry.live, hidle, Bool.true_and, hr.abs, hblob, hrel.st.now, Bool.not_not]
-      cases blob.abs <;> rfl
+      simp only [SEntry.live, SEntry.absOK, hidle, Bool.true_and, hr.abs, hblob, hrel.st.now, Bool.not_not]
+      try (cases blob.abs <;> rfl)
     cases hexp : absExpired h.c.st.now blob with
     | false =>
       rw [hexp] at hh hlive_eq
       simp only [Bool.and_false, Bool.false_eq_true, if_false] at hh
-      refine ⟨{ r with cur := .other { id := id, data := se.data, fresh := false, abs := se.absDeadline } }, ?_, ?_⟩
+      refine ⟨{ r with cur := .other (View.mk id se.data false se.absDeadline none false false) }, ?_, ?_⟩
       · simp [specAct, act, hh, hid, hs, hlive_eq]
       · have h1 := hrel.update_ctx (c' := (acquire h.c).1) hacq.1 hsp.1 hsame hout1
         have h2 := h1.set_cur (s := { id := id, data := blob, fresh := false, hasCtx := false }) hv0 rfl
@@ -751,28 +727,26 @@ theorem start_sim {cfg : Cfg} {gen : Nat → Bytes} (hw : WF cfg gen) {st : St} 
     simp only [startReq, hvia, if_true]
     have hout : OutOK gen ({ st := st, ck := q.ck, hd := q.hd, qr := q.qr } : RCtx) :=
       ⟨by intro v hv; simp at hv, by intro v hv; simp at hv⟩
-    obtain ⟨r', v, hlv, sim, hctx, hmono, hvd⟩ :=
+    obtain ⟨r', v, hlv, sim, hmono, hvd, hvc⟩ :=
       load_sim hw (c := { st := st, ck := q.ck, hd := q.hd, qr := q.qr }) (G := G)
-        (r := SReq.mk s (gensBetween gen st.nid (getSession cfg gen { st := st, ck := q.ck, hd := q.hd, qr := q.qr }).1.st.nid ++ G) none false .none false)
-        hst rfl hout rfl
-    rw [presented_eq cfg q _ rfl rfl rfl] at hlv
+        (r := SReq.mk s (gensBetween gen st.nid (getSession cfg gen { st := st, ck := q.ck, hd := q.hd, qr := q.qr }).1.st.nid ++ G) q.pres none none false .none)
+        hst ⟨rfl, rfl, rfl, rfl⟩ hout rfl
     refine ⟨{ r' with mw := some v, cur := .mw }, ?_, ?_⟩
     · simp [specStart, hvia, hlv, bind, Except.bind, pure, Except.pure]
-    · refine ⟨sim.st, sim.gens, sim.out, sim.view, trivial, ?_, ?_, ?_, ?_, ?_⟩
+    · refine ⟨sim.st, sim.gens, sim.out, sim.view, trivial, ?_, ?_, ?_, ?_, sim.req⟩
       · simp only; rw [sim.fields.2.1]
       · simp [hvia]
-      · intro s0 hs0; simp only [Option.some.injEq] at hs0; subst hs0; exact hctx
+      · intro s0 hs0; simp only [Option.some.injEq] at hs0; subst hs0; rw [← sim.view.ctx]; exact hvc
       · intro _ v1 hv1; simp only [Option.some.injEq] at hv1; subst hv1; exact hvd
-      · intro hf; rw [hvia] at hf; cases hf
   | false =>
     simp only [startReq, hvia]
-    refine ⟨{ s := s, gens := G }, ?_, ?_⟩
+    refine ⟨{ s := s, gens := G, pres := q.pres }, ?_, ?_⟩
     · simp [specStart, hvia, pure, Except.pure, gensBetween_self]
-    · refine ⟨hst, rfl, ⟨by intro v hv; simp at hv, by intro v hv; simp at hv⟩, trivial, trivial, rfl, ?_, ?_, ?_, ?_⟩
+    · refine ⟨hst, rfl, ⟨by intro v hv; simp at hv, by intro v hv; simp at hv⟩, trivial, trivial, rfl, ?_, ?_, ?_,
+        ⟨rfl, rfl, rfl, rfl⟩⟩
       · simp [hvia]
       · intro s0 hs0; simp at hs0
       · intro _ v1 hv1; simp at hv1
-      · intro _ _; exact ⟨rfl, rfl, rfl, rfl, by intro s0 hs0; simp at hs0⟩
 
 theorem handle_eq (cfg : Cfg) (gen : Nat → Bytes) (st : St) (q : Req) :
     handle cfg gen st q =
